@@ -328,3 +328,24 @@ pub fn capability_raw_roundtrip<S: Src>(s: &mut S) {
     // the anyhow error's drop glue (Backtrace frames) is not the subject; skip it
     std::mem::forget(res);
 }
+
+/// C01-S3 / C08: the range fingerprint of an entry hashes exactly
+/// namespace | author | key | timestamp_be | content hash — nothing else and nothing less (an entry
+/// that differs in any of these fields gets a different hash input).
+pub fn fingerprint_input<S: Src, const K: usize>(s: &mut S) {
+    let raw = RawEntry::<K>::any(s);
+    let signed = SignedEntry::new(EntrySignature::from_parts(&[1u8; 64], &[2u8; 64]), raw.entry());
+    let _fp = RangeEntry::as_fingerprint(&signed);
+    let mut want: Vec<u8> = Vec::with_capacity(64 + K + 40);
+    want.extend_from_slice(&raw.ns);
+    want.extend_from_slice(&raw.author);
+    want.extend_from_slice(&raw.key);
+    want.extend_from_slice(&raw.ts.to_be_bytes());
+    want.extend_from_slice(&raw.hash);
+    #[allow(static_mut_refs)]
+    let (len, log) = unsafe { (crypto::HLOG_LEN, &crypto::HLOG) };
+    cv!(s, true, "fingerprint_input: reached");
+    ck!(s, len == want.len(), "the fingerprint hashes exactly 64 + key length + 8 + 32 bytes");
+    ck!(s, len <= crypto::HLOG_MAX && log[..want.len().min(crypto::HLOG_MAX)] == want[..], "the fingerprint input is namespace|author|key|timestamp_be|content hash");
+    std::mem::forget(signed);
+}
